@@ -54,12 +54,12 @@ type Config struct {
 	NoIntegrity      bool
 	TimeSkew         bool // keep the default 15 min request-time skew check
 	MetaLimit        int
-	BoltSync         bool                     // keep bbolt's fsyncs (crashmc); default NoSync for speed
-	FsWrap           func(afero.Fs) afero.Fs  // wraps the base fs handed to the backend (schedmc / crashmc)
-	MetaFsWrap       func(afero.Fs) afero.Fs  // wraps the metadata fs of single-bucket worlds
-	ReuseDir         string                   // open existing storage at this directory (crash images, reopen)
-	KeepDir          bool                     // do not remove the storage directory on Close
-	MemFs            afero.Fs                 // reuse an existing MemMapFs (reopen on -mem worlds)
+	BoltSync         bool                    // keep bbolt's fsyncs (crashmc); default NoSync for speed
+	FsWrap           func(afero.Fs) afero.Fs // wraps the base fs handed to the backend (schedmc / crashmc)
+	MetaFsWrap       func(afero.Fs) afero.Fs // wraps the metadata fs of single-bucket worlds
+	ReuseDir         string                  // open existing storage at this directory (crash images, reopen)
+	KeepDir          bool                    // do not remove the storage directory on Close
+	MemFs            afero.Fs                // reuse an existing MemMapFs (reopen on -mem worlds)
 	MemMetaFs        afero.Fs
 }
 
@@ -89,7 +89,7 @@ var scratchSeq int64
 
 // SetScratch sets the directory under which persistent worlds are created.
 func SetScratch(dir string) { scratchRoot = dir }
-func Scratch() string        { return scratchRoot }
+func Scratch() string       { return scratchRoot }
 
 func newScratchDir() (string, error) {
 	if scratchRoot == "" {
